@@ -27,7 +27,8 @@
 (* for a range just supplied; with exact deliveries the number of requests *)
 (* is at most groups x (predicates + 1); under fair delivery the decoder   *)
 (* finishes); D4 data handed to a reader covers every page that reader     *)
-(* touches; D6 batches have 1..batch size rows.                            *)
+(* touches -- also every row a mask chunk decodes, were the Mask strategy   *)
+(* used; D6 batches have 1..batch size rows.                               *)
 (***************************************************************************)
 EXTENDS ParquetScan
 
@@ -91,6 +92,57 @@ Need(g, cols, p, expandCols) == UNION {ColRanges(g, c, ColPages(g, c, p, c \in e
 (* pages of column c holding any of the (1-based, group relative) positions  *)
 PagesOfRows(g, c, positions) == {PageOf(Firsts[g][c], q - 1) : q \in positions}
 Holds(pages, g, c, positions) == pages = {0} \/ PagesOfRows(g, c, positions) \subseteq pages
+
+
+(* --------------------- mask execution over sparse pages ------------------ *)
+(* With the Mask strategy every row covered by a mask chunk is decoded, so a  *)
+(* chunk must stay inside rows whose pages are loaded for every projected     *)
+(* column (reader_builder/mod.rs prepare_selection_for_page_skipping,         *)
+(* selection/cursor.rs MaskCursor::next_chunk, arrow_reader/mod.rs            *)
+(* read_mask_batch).                                                          *)
+PageRowBits(g, c, pages) ==
+  [q \in 1..RgRows[g] |-> IF pages = {0} \/ PageOf(Firsts[g][c], q - 1) \in pages THEN 1 ELSE 0]
+RECURSIVE AndOver(_, _, _, _)
+AndOver(g, cols, p, acc) ==
+  IF cols = {} THEN acc
+  ELSE LET c == CHOOSE x \in cols : TRUE
+           pgs == ScanPagesRuns(p.runs, Firsts[g][c])
+           b == PageRowBits(g, c, {pgs[i] : i \in 1..Len(pgs)}) IN
+       AndOver(g, cols \ {c}, p, [q \in 1..RgRows[g] |-> IF acc[q] = 1 /\ b[q] = 1 THEN 1 ELSE 0])
+(* loaded_row_ranges_for_projection as a 0/1 sequence; <<>> = no restriction  *)
+LoadedFor(g, cols, p) ==
+  IF ~(p.some /\ HasIndex) \/ cols = {} THEN <<>>
+  ELSE LET b == AndOver(g, cols, p, Rep(1, RgRows[g])) IN
+       IF \A q \in 1..Len(b) : b[q] = 1 THEN <<>> ELSE b
+(* last row (1-based) of the loaded run containing row `at`; 0 if not loaded  *)
+LoadedEnd(loaded, at) ==
+  IF loaded[at] = 0 THEN 0
+  ELSE CHOOSE e \in at..Len(loaded) :
+         /\ \A j \in at..e : loaded[j] = 1
+         /\ (e = Len(loaded) \/ loaded[e + 1] = 0)
+(* all chunks of a read: ok = no internal error, dec = rows decoded, got =    *)
+(* rows returned, in order; `inBatch` = rows already selected for the batch   *)
+RECURSIVE MaskWalk(_, _, _, _, _, _)
+MaskWalk(mask, pos, inBatch, loaded, bs, acc) ==
+  IF pos >= Len(mask) THEN acc
+  ELSE LET later == {i \in (pos + 1)..Len(mask) : mask[i] = 1} IN
+       IF later = {} THEN [acc EXCEPT !.ok = FALSE]        \* trailing skips must have been trimmed
+       ELSE LET start == CHOOSE i \in later : \A j \in later : i <= j
+                rend == IF loaded = <<>> THEN Len(mask) ELSE LoadedEnd(loaded, start) IN
+            IF rend = 0 THEN [acc EXCEPT !.ok = FALSE]     \* "selected row has no loaded page range"
+            ELSE LET limit == bs - inBatch
+                     cand == {e \in start..Min2(rend, Len(mask)) :
+                                 mask[e] = 1 /\ Cardinality({j \in start..e : mask[j] = 1}) <= limit}
+                     stop == CHOOSE e \in cand : \A f \in cand : f <= e
+                     sel == {j \in start..stop : mask[j] = 1}
+                     total == inBatch + Cardinality(sel)
+                     RECURSIVE Ord(_)
+                     Ord(S) == IF S = {} THEN <<>>
+                               ELSE LET m == CHOOSE x \in S : \A y \in S : x <= y IN <<m>> \o Ord(S \ {m}) IN
+                 MaskWalk(mask, stop, IF total >= bs THEN 0 ELSE total, loaded, bs,
+                          [ok |-> acc.ok, dec |-> acc.dec \cup (start..stop), got |-> acc.got \o Ord(sel)])
+MaskRead(g, cols, p, bs) ==
+  MaskWalk(Bits(BuildPlan(p).runs), 0, 0, LoadedFor(g, cols, p), bs, [ok |-> TRUE, dec |-> {}, got |-> <<>>])
 
 (* ------------------------------- config -------------------------------- *)
 NP == Len(cfg.preds)
@@ -303,6 +355,20 @@ D4_Covered ==
         LET c == cfg.predcols[k] IN
         /\ chunks[c] # {}
         /\ plan.some => Holds(chunks[c], cur, c, Positions(Bits(plan.runs)))
+
+(* were the Mask strategy used: no chunk error, exactly the selected rows in   *)
+(* order, and no decoded row on a page that was not fetched                   *)
+D4_MaskChunks ==
+  /\ (st \in {"waitdata", "decoding"} /\ plan.some) =>
+        LET w == MaskRead(cur, cfg.proj, plan, cfg.bs)
+            m == Bits(BuildPlan(plan).runs) IN
+        /\ w.ok /\ Len(w.got) = Count(m) /\ \A i \in 1..Len(w.got) : m[w.got[i]] = 1 /\ (i > 1 => w.got[i - 1] < w.got[i])
+        /\ \A c \in cfg.proj : Holds(chunks[c], cur, c, w.dec)
+  /\ (st = "waitfilter" /\ plan.some) =>
+        LET c == cfg.predcols[k]
+            w == MaskRead(cur, {c}, plan, cfg.bs) IN
+        /\ w.ok /\ Len(w.got) = SumSel(plan.runs)
+        /\ Holds(chunks[c], cur, c, w.dec)
 
 D6_Batches == [][blens' # blens => (blens'[Len(blens')] >= 1 /\ blens'[Len(blens')] <= Min2(cfg.bs, NumRows(RgRows)))]_vars
 
